@@ -40,8 +40,16 @@ def install_extra_support(extra: str) -> None:
 TRACE = []
 
 
-def install_fs_shim(root: str, not_owned, nonroot: bool) -> None:
+def install_fs_shim(root: str, not_owned, nonroot: bool, crash=None) -> None:
+    """crash = {"path": <rel>, "phase": "before_open" | "after_open" | "before_final_chmod"}: the process is killed
+    (os._exit, no cleanup, no flush) at that point of the write of that file"""
     root = os.path.realpath(root)
+    seen_open = set()
+
+    def die():
+        sys.stdout.write('\nC12OUT' + json.dumps({'crashed': True, 'trace': TRACE}) + '\n')
+        sys.stdout.flush()
+        os._exit(137)
     not_owned = {os.path.realpath(p) for p in not_owned}
     real_open, real_mkdir, real_chmod = builtins.open, os.mkdir, os.chmod
 
@@ -73,9 +81,17 @@ def install_fs_shim(root: str, not_owned, nonroot: bool) -> None:
 
     def my_open(file, mode='r', *a, **kw):
         if not isinstance(file, int) and inside(file) and any(ch in mode for ch in 'wax+'):
-            TRACE.append(['open_w', os.path.relpath(os.path.realpath(os.fspath(file)), root)])
+            rel = os.path.relpath(os.path.realpath(os.fspath(file)), root)
+            TRACE.append(['open_w', rel])
+            if crash and crash['path'] == rel and crash['phase'] == 'before_open':
+                die()
             if nonroot:
                 check_write(os.fspath(file))
+            f = real_open(file, mode, *a, **kw)
+            seen_open.add(rel)
+            if crash and crash['path'] == rel and crash['phase'] == 'after_open':
+                die()      # the file has been created/truncated, nothing written yet
+            return f
         return real_open(file, mode, *a, **kw)
 
     def my_mkdir(path, *a, **kw):
@@ -88,7 +104,10 @@ def install_fs_shim(root: str, not_owned, nonroot: bool) -> None:
 
     def my_chmod(path, mode, *a, **kw):
         if not isinstance(path, int) and inside(path):
-            TRACE.append(['chmod', os.path.relpath(os.path.realpath(os.fspath(path)), root), mode & 0o7777])
+            rel = os.path.relpath(os.path.realpath(os.fspath(path)), root)
+            TRACE.append(['chmod', rel, mode & 0o7777])
+            if crash and crash['path'] == rel and crash['phase'] == 'before_final_chmod' and rel in seen_open:
+                die()
             if nonroot and os.path.realpath(os.fspath(path)) in not_owned:
                 raise PermissionError(1, 'Operation not permitted (emulated unprivileged owner)', os.fspath(path))
         return real_chmod(path, mode, *a, **kw)
@@ -125,7 +144,18 @@ def describe(argv) -> dict:
     sup_kinds = [r.suffix == TEMPLATE_SUFFIX for r in sup_gen.get_templates(omit)]
     res_modes = [stat.S_IMODE(os.stat(str(r)).st_mode) for r in sup_gen.get_templates(omit)]
     typ_targets = [str(pathlib.Path(p).relative_to(out)) for p in gen.generate_all(is_dryrun=True, omit_serialization_support=omit)]
+    from nunavut._utilities import ResourceType
+    lang = sup_gen.language_context.get_target_language()
+
+    def by_type(rt):
+        tp = pathlib.Path(sup_gen.namespace.get_support_output_folder()) / sup_gen._sub_folders
+        return [[str(((tp / r.name).with_suffix(lang.extension)).relative_to(out)), r.suffix == TEMPLATE_SUFFIX]
+                for r in sup_gen._get_templates_by_support_type(rt)]
     return {
+        'sersup': by_type(ResourceType.SERIALIZATION_SUPPORT),
+        'typesup': by_type(ResourceType.TYPE_SUPPORT),
+        'gensup': args.generate_support,
+        'omit': bool(args.omit_serialization_support),
         'gen_support': bool(runner._should_generate_support()),
         'gen_types': args.generate_support != 'only',
         'support': [[p, k] for p, k in zip(sup_targets, sup_kinds)],
@@ -150,9 +180,9 @@ def main() -> int:
     try:
         if doc.get('describe'):
             res['describe'] = describe(argv)
-        if doc.get('nonroot') or doc.get('trace'):
+        if doc.get('nonroot') or doc.get('trace') or doc.get('crash'):
             nr = doc.get('nonroot') or {}
-            install_fs_shim(nr.get('root') or doc['trace_root'], nr.get('not_owned', []), bool(doc.get('nonroot')))
+            install_fs_shim(nr.get('root') or doc['trace_root'], nr.get('not_owned', []), bool(doc.get('nonroot')), doc.get('crash'))
         if doc.get('run', True):
             sys.argv = ['nnvg'] + argv
             from nunavut.cli import main as nnvg_main
